@@ -3,7 +3,7 @@
 # Applies the patch to a scratch copy of /repo (never to /repo), runs the named checks against the copy,
 # prints their VIOLATION/KNOWN-FINDING lines and exit codes, and removes the copy.
 set -u
-PATCH="$1"; shift
+PATCH="$(readlink -f "$1")"; shift
 V="$(cd "$(dirname "$0")/.." && pwd)"
 S="$(mktemp -d /tmp/tauscratch.XXXXXX)"
 trap 'rm -rf "$S"' EXIT
@@ -11,7 +11,7 @@ mkdir -p "$S/repo" "$S/out"
 cp -r /repo/src /repo/Cargo.toml /repo/Cargo.lock "$S/repo/"
 [ -d /repo/benches ] && cp -r /repo/benches "$S/repo/"
 [ -d /repo/tests ] && cp -r /repo/tests "$S/repo/"
-( cd "$S/repo" && git init -q . && git apply --whitespace=nowarn "$PATCH" ) || { echo "PATCH-DOES-NOT-APPLY $PATCH"; exit 3; }
+( cd "$S/repo" && git init -q . && { git apply --whitespace=nowarn "$PATCH" 2>/dev/null || patch -p1 -s -F 3 --no-backup-if-mismatch < "$PATCH"; } ) || { echo "PATCH-DOES-NOT-APPLY $PATCH"; exit 3; }
 RC=0
 for C in "$@"; do
   OUTP=$(TAU_REPO="$S/repo" TAU_OUT="$S/out" "$V/check" "$C" 2>&1)
